@@ -77,7 +77,7 @@ var payloads = []payload{
 	{`x=1;y`, "x=1;y"}, {`tab\there`, "tab\there"}, {`\n`, "\n"}, {"a|b&c", "a|b&c"}, {"  lead", "  lead"},
 }
 var reportVarNames = []string{"VERSION", "NAME", "other", "FLAG_X", "Zed", "GIT_HASH", "RELEASE_CODENAME"}
-var reportVarValues = []string{"0.3.0", "spok", "a b", "", "--flag=1", "x/y", "50%", "%d%%"}
+var reportVarValues = []string{"0.3.0", "spok", "a b", "", "--flag=1", "x/y", "50%", "%d%%", "fish & chips", "<in >out", "1.2+dev", "a=b&c=d", "{not a ref}", "$HOME", "back\\slash"}
 
 func genReport(t *rapid.T) ReportCase {
 	c := genReportBody(t)
